@@ -219,9 +219,8 @@ def known(c, r):
     if not any(d["t"] == "vl" for d in c["items"]):
         return None
     for s in c["values"]:
-        for n in re.findall(r"%([^%]+)%", s):
-            t = c["vars"].get(n)
-            if isinstance(t, list) and len(t) >= 2:
+        for n, t in c["vars"].items():
+            if isinstance(t, list) and len(t) >= 2 and f"%{n}%" in s:
                 return "C17-F1-expansion-under-all-is-and-linked"
     return None
 
